@@ -9,6 +9,26 @@ CHECKS = {
    text="Complete enumeration, on the real token and position pools, of every history Get^k for every block size 1..128,255..257,1023..1025 (quick) / 1..1100,2047..2049,4096 (thorough) and every k <= 3*size+2; after every Get all objects handed out so far are checked for nil, identity, storage overlap and read-back against a reference slice. Complete for the sizes listed; sizes beyond are not explored.",
    note="Trusted: Go reflection/unsafe address arithmetic; the overlay only turns the DefaultBlockSize constants into variables.", ref="§C18"),
 }
+CHECKS.update({
+ "C02": dict(cat="exploration", tech="exhaustive exploration of the LALR automaton's rule/2-path/3-path sentences x trivia and lexeme deviations on the real scanner+parser+printer",
+   text="Every rule and every (rule, position, child rule) pair of both grammars (thorough: nullable combinations and 3-paths) is driven through the real scanner, parser and printer in baseline layout, with unique trivia in every gap, with every 1-deviation of trivia and lexeme (thorough: 2-deviations), under every version of its family, plus heads x bodies x tails, literal forms and multi-thousand-token programs under production pools; printed bytes must equal the source. Complete for the sentence sets and alphabets listed; nesting deeper than 3 rules and longer programs are not explored.",
+   note="Trusted: goyacc -v output for the current grammar (sentence generator), M-lex rendering; validity of a program is decided by the real parser reporting zero errors.", ref="§C02"),
+ "C04": dict(cat="exploration", tech="exhaustive exploration of LR-corpus programs x line-terminator/trivia deviations against a reference line counter, classifier and tiling oracle",
+   text="Same program space as C02 plus driver-invalid sentences, large programs in LF/CRLF/CR and short byte strings; on every returned tree every token and free-floating token is compared with the source bytes at its offsets and with a reference line counter, print order must be offset order, and error-free trees must tile the source with correctly classified trivia and leaf values equal to token text.",
+   note="Trusted: reflection walk in print order (mc/astx), reference line counter and classifier (mc/lexm).", ref="§C04"),
+ "C05": dict(cat="exploration", tech="exhaustive exploration of every grammar rule in every parent slot; positions recomputed from the token spans of each subtree",
+   text="Every position-building action of both grammars is executed in several contexts (rules, 2-paths, nullable combinations; thorough: 3-paths and deviations) in single-line and multi-line layouts; each node's recorded span and lines are recomputed from the tokens of its own subtree with the four documented conventions; nesting and sibling order are checked; a wrong boundary is blamed on the innermost node.",
+   note="Trusted: token positions (C04). Known findings: try{} end, ${a[0]} end, PHP 5 goto label (all asserted by the suite).", ref="§C05"),
+ "C12": dict(cat="exploration", tech="exhaustive slot enumeration of all node kinds (depth 1 and 2) under a recording visitor vs reflection pre-order",
+   text="Complete over the 155 kinds: every presence/absence assignment of child slots (lists of 1..3), with and without tokens, and every kind in every child slot of every kind (depth 2); the real traverser's callback sequence must equal the reflection pre-order. Complete for the tree shapes listed; parsed corpus trees are added as a further slice.",
+   note="Trusted: Go reflection; field order of pkg/ast is source order.", ref="§C12"),
+ "C15": dict(cat="exploration", tech="exhaustive slot enumeration of all node kinds with unique markers through the real printer, judged against a slot vocabulary",
+   text="Complete over the 155 kinds x every presence/absence assignment of token, child, value and (items, separators) slots x two printer start states: every present marker once, in order, free-floating before its token; text between markers must be glue or the canonical lexeme of an absent slot declared there.",
+   note="Trusted: slot vocabulary (mc/slotm) written from the PHP manual; unknown slots are unconstrained and listed in the evidence.", ref="§C15"),
+ "C16": dict(cat="exploration", tech="exhaustive field-subset enumeration of all node kinds x 4 dumper options, dump read back with go/parser and compared with a reflection walk",
+   text="Complete over the 155 kinds x every subset of all fields x the four option combinations (1.7M dumps in the quick tier): the dump must parse as one Go composite literal whose type, keys and contents equal the reflection walk.",
+   note="Trusted: go/parser, strconv.Unquote.", ref="§C16"),
+})
 NA = {}
 
 checks = []
